@@ -8,7 +8,7 @@ from .. import core, fm, km, mc
 from ..core import Failure
 from .. import graphs
 
-NAMINGS = ['int', 'str', 'tuple', 'mixed']
+NAMINGS = ['int', 'str', 'tuple', 'mixed', 'zigzag']
 
 
 def N(f):
